@@ -251,8 +251,9 @@ def gen_spec(ctx, rng, tier, force=None):
         spec['kill'] = kill
     if bulk:
         spec['bulk'] = bulk
-    if rng.random() < 0.1:
-        # fault: the clock jumps while the threads are running
+    if force.get('clock_jumps'):
+        # (implemented, not drawn by the deciding check: time dependence is C17's to report, and the
+        # sequential-explanation step could not tell it from a schedule dependence)
         spec['clock_jumps'] = [[rng.randrange(max(1, est)), rng.choice([0.5, 61.0, 3601.0, 86401.0, -10.0])]
                                for _ in range(rng.randint(1, 3))]
     return spec
